@@ -55,7 +55,9 @@ def header(scn):
     ors = origins_of(scn)
     rk = []
     for o in ors:
-        rk.append(scn['robots'].get(o, {'kind': 'missing'})['kind'])
+        r = scn['robots'].get(o, {'kind': 'missing'})
+        # a scripted control file: what it finally says counts (the attempts before it fail)
+        rk.append(r['seq'][-1] if r['kind'] == 'script' else r['kind'])
     return dict(U=n, H=len(hs), OR=len(ors), start=scn['start'], links=links,
                 host=[hs.index(by[i]['host']) + 1 for i in range(1, n + 1)],
                 origin=[ors.index(origin_label(by[i])) + 1 for i in range(1, n + 1)],
@@ -84,7 +86,7 @@ def site_desc(scn):
             robots[h] = {'kind': 'missing'}
         else:
             r = dict(r)
-            if r['kind'] == 'rules' and 'disallow' not in r:
+            if (r['kind'] == 'rules' or (r['kind'] == 'script' and 'rules' in r['seq'])) and 'disallow' not in r:
                 r['disallow'] = ['/priv/']
             robots[h] = r
     return dict(hosts={h: IPS[h] for h in hs}, urls=urls, robots=robots, refuse=list(scn.get('refuse', ())),
@@ -368,6 +370,11 @@ def c18_catalogue(quick):
     for T in (1, 2):
         out.append(scenario('robots-error-forever-T%d' % T, [U(1, links=[2]), U(2)], dict(robots=1, tries=T), N=1,
                             robots={'a.test': {'kind': 'error500'}}, benign=0))
+    # ... or ends in a network error every time (the server closes without answering): more attempts than one host
+    # may have connections
+    for T in ((8,) if quick else (7, 8, 12)):
+        out.append(scenario('robots-dropped-forever-T%d' % T, [U(1, links=[2]), U(2)], dict(robots=1, tries=T), N=1,
+                            robots={'a.test': {'kind': 'drop'}}, benign=0))
     out.append(scenario('robots-error-second-origin', [U(1, links=[2, 3]), U(2, host='b.test'), U(3)],
                         dict(robots=1, tries=2, spanhosts=1), N=1,
                         robots={'a.test': {'kind': 'missing'}, 'b.test': {'kind': 'error500'}}, benign=0))
@@ -385,6 +392,12 @@ def c20_catalogue(quick):
     out.append(scenario('robots-off', basic, dict(robots=0, pagereq=1), N=1, robots=rules))
     out.append(scenario('robots-error500', [U(1, links=[2]), U(2)], dict(robots=1, tries=2), N=1,
                         robots={'a.test': {'kind': 'error500'}}, benign=0))
+    # the control file cannot be fetched (connection closed without an answer): the URL is postponed, again and again,
+    # and given up with the retry limit - also when that takes more attempts than a host may have connections
+    out.append(scenario('robots-dropped-T9', [U(1, links=[2]), U(2)], dict(robots=1, tries=9), N=1,
+                        robots={'a.test': {'kind': 'drop'}}, benign=0))
+    out.append(scenario('robots-dropped-then-served', [U(1, links=[2, 3]), U(2, disallowed=1), U(3)], dict(robots=1, tries=9), N=1,
+                        robots={'a.test': {'kind': 'script', 'seq': ['drop'] * 7 + ['rules']}}, benign=0))
     # two origins, span hosts
     two = [U(1, links=[2, 3]), U(2, host='b.test', links=[4, 5]), U(3), U(4, host='b.test', disallowed=1), U(5, host='b.test')]
     for n in (1, 2):
